@@ -1,7 +1,8 @@
 /-
 `almost_swapped` (selene-lib/src/lints/almost_swapped.rs).  Hook: `visit_block`, a scan over the block's
-statements with one slot of state (`last_swap`).  The texts compared are `purge_trivia(node).to_string()`,
-i.e. the node's token texts glued together without separators (`glue`).
+statements with one slot of state (`last_swap`).  Two assignments are compared by the token texts of their
+variable and value (`token_texts`, here `nodeToks`); the names shown in the message are
+`purge_trivia(node).to_string()`, the token texts glued together without separators (`glue`).
 -/
 import Selene.Lints.SideEffects
 namespace Selene.LintsB.AlmostSwapped
@@ -10,6 +11,8 @@ open Selene.Lua Selene.LintsB Selene.LintsB.SideEffects
 structure Swap where
   names : String × String
   start : Nat
+  varToks : List String
+  exprToks : List String
 deriving DecidableEq, Repr
 
 /-- a statement the loop body treats as a swap half: a single-target single-value assignment whose target
@@ -20,21 +23,30 @@ def candidate : Stmt → Option (Var × Expr)
 
 def msg (n : String × String) : String := "this looks like you are trying to swap `" ++ n.1 ++ "` and `" ++ n.2 ++ "`"
 
+/-- the remembered form of a candidate statement -/
+def remember (toks : List String) (s : Stmt) (v : Var) (e : Expr) : Swap :=
+  { names := (glue toks v.span, glue toks e.span), start := (stmtSpan s).first,
+    varToks := nodeToks toks v.span, exprToks := nodeToks toks e.span }
+
+/-- the guard of the first `match last_swap.take()` arm -/
+def completes (toks : List String) (ls : Swap) (v : Var) (e : Expr) : Bool :=
+  ls.varToks == nodeToks toks e.span && ls.exprToks == nodeToks toks v.span
+
 /-- the `for stmt in block.stmts()` loop; first argument = `last_swap` -/
 def scan (toks : List String) : Option Swap → List Stmt → List Diag
   | _, [] => []
   | st, s :: rest =>
     match candidate s with
     | some (v, e) =>
-      let exprText := glue toks e.span
-      let varText := glue toks v.span
       match st with
       | some ls =>
-        -- `last_swap.take()`: the slot is empty afterwards whether or not the texts matched
-        (if ls.names.1 == exprText && ls.names.2 == varText then
-          [{ code := "almost_swapped", primary := ⟨ls.start, e.span.last⟩, msg := msg ls.names }] else [])
-          ++ scan toks none rest
-      | none => scan toks (some { names := (varText, exprText), start := (stmtSpan s).first }) rest
+        if completes toks ls v e then
+          -- `last_swap.take()` left the slot empty
+          { code := "almost_swapped", primary := ⟨ls.start, e.span.last⟩, msg := msg ls.names } :: scan toks none rest
+        else
+          -- not the second half of a swap, but possibly the first half of the next one
+          scan toks (some (remember toks s v e)) rest
+      | none => scan toks (some (remember toks s v e)) rest
     | none => scan toks none rest
 
 def collect (toks : List String) : Node → List Diag
